@@ -31,6 +31,7 @@ func init() {
 				gateOAE(c, id, oi, "wait")
 			}},
 			{ID: "C13.R11", Text: "events racing with the close cannot trip the fail-stop membership check: snapshot announcements are installed whenever the gate passes, also while the delivery switch is off (same rule as C06.R7)", Run: markerInstall},
+			{ID: "C13.R34", Text: "a background loop that runs on a flag is stopped under the configuration it was started under: every raise of the flag has a lowering under no further configuration test (a StopSchedule that returns early for the very checkpoint type StartSchedule runs in leaves the schedule saving behind Close)", Run: stopMatchesStart},
 			{ID: "C13.R12", Text: "the final save stores every settled position: the dirty set is cleared only after, and only under err==nil of, the store call, and the save is attempted whenever the flag is up (same rules as C05.R3, C05.R4)", Run: func(c *Ctx, id string) { c05r3(c, id); c05r4(c, id) }},
 			{ID: "C13.R13", Text: "Close cannot hang on a parked event: the persistence wait is left ⇔ seq ≤ persistSeqNo ∨ closed, so throwing the delivery switch releases a handler that sits in the gate (and with it the connection's reader that the stream-close request needs) (same rule as C07.R2)", Run: c07r2},
 			{ID: "C13.R14", Text: "the close loops reach every observer and every position: Range over the wrapper visits all entries (same rule as C04.R9)", Run: wrapperFaithful},
@@ -52,6 +53,7 @@ func init() {
 			{ID: "C13.R30", Text: "shutdown is the decision of the application: the public Close is used by nobody inside the module (same rule as C11.R25)", Run: closeIsEntryPointOnly},
 			{ID: "C13.R31", Text: "the close is not held up by a delivery in progress: Observer.Close and Observer.CloseEnd only set their switch — no lock, channel operation or wait", Run: observerSwitchesDoNotWait},
 			{ID: "C13.R32", Text: "nothing panics on the way down: channel closes are once by construction or confirmed (same rule as C20.R22)", Run: channelClosesKnown},
+			{ID: "C13.R33", Text: "a re-open attempt in flight at Close gives up instead of failing on: the re-open loop evaluated whole, session check after every failed attempt (same rule as C12.R3)", Run: c12r3},
 			{ID: "C13.R9", Text: "background waits are cancellable: the health checker blocks only in selects with a ctx.Done() case (same rule as C19.R2)", Run: c19r2},
 			{ID: "C13.R10", Text: "a cancel signal closes with closeWithCancel=true: the flag is raised in the branch of the wait that received the signal, before the close path runs, and is what Stream.Close receives", Run: c13r10},
 			{ID: "C13.R8", Text: "closeAllStreams closes every assigned vBucket: the serial branch iterates vbIDRange.Start..End inclusive, the parallel branch ranges over every tracked position", Run: closeAllRange},
@@ -191,8 +193,8 @@ func c13r2(c *Ctx, id string) {
 			if cc == nil {
 				return "", nil
 			}
-			if m, _ := csmapMethod(cc); m == "Range" && len(cc.Args) == 2 {
-				if f := closureOf(cc.Args[1]); f != nil {
+			if _, f, isRange := w.rangeCall(cc); isRange {
+				if f != nil {
 					name := ""
 					allInstrs(f, func(x ssa.Instruction) {
 						if c2 := callOf(x); c2 != nil && c2.IsInvoke() && recvTypeName(c2.Value.Type()) == "Observer" {
@@ -632,7 +634,7 @@ func closeAllRange(c *Ctx, id string) {
 					var rng bool
 					allInstrs(fn, func(x ssa.Instruction) {
 						if c2 := callOf(x); c2 != nil {
-							if m, recv := csmapMethod(c2); m == "Range" && w.isOffsetMap(recv.Type()) && len(guardsOf(x.Block())) <= 1 {
+							if recv, _, isRange := w.rangeCall(c2); isRange && w.isOffsetMap(recv.Type()) && len(guardsOf(x.Block())) <= 1 {
 								rng = true
 							}
 						}
@@ -763,7 +765,7 @@ func closeAllWait(c *Ctx, id string, fn *ssa.Function) {
 	rangeRecv := ""
 	allInstrs(fn, func(x ssa.Instruction) {
 		if c2 := callOf(x); c2 != nil {
-			if m, recv := csmapMethod(c2); m == "Range" && w.isOffsetMap(recv.Type()) {
+			if recv, _, isRange := w.rangeCall(c2); isRange && w.isOffsetMap(recv.Type()) {
 				rangeRecv = w.Origin(recv)
 			}
 		}
@@ -860,13 +862,8 @@ func comparedCounter(w *World, v ssa.Value, depth int) *types.Var {
 	if b, ok := v.(*ssa.BinOp); ok && (b.Op.String() == "!=" || b.Op.String() == "==") {
 		var counter *types.Var
 		for _, side := range []ssa.Value{b.X, b.Y} {
-			if call, isCall := unwrap(side).(*ssa.Call); isCall && strings.Contains(calleeName(call.Common()), "sync/atomic.") && strings.HasSuffix(calleeName(call.Common()), ".Load") && len(call.Common().Args) == 1 {
-				counter = fieldOfAddr(call.Common().Args[0])
-			}
-			if f := loadedField(side); f != nil {
-				if bt, isBasic := f.Type().Underlying().(*types.Basic); isBasic && bt.Info()&types.IsInteger != 0 {
-					counter = f
-				}
+			if f := counterRead(w, side, 2); f != nil {
+				counter = f
 			}
 		}
 		return counter
@@ -890,6 +887,38 @@ func comparedCounter(w *World, v ssa.Value, depth int) *types.Var {
 		})
 		if n >= 1 && bad == 0 {
 			return counter
+		}
+	}
+	return nil
+}
+
+// counterRead: v reads an integer counter field — atomically or plainly, directly or through a small accessor of this
+// module whose only return is such a read; returns that field.
+func counterRead(w *World, v ssa.Value, depth int) *types.Var {
+	v = unwrap(v)
+	if call, isCall := v.(*ssa.Call); isCall {
+		if strings.Contains(calleeName(call.Common()), "sync/atomic.") && strings.HasSuffix(calleeName(call.Common()), ".Load") && len(call.Common().Args) == 1 {
+			return fieldOfAddr(call.Common().Args[0])
+		}
+		callee := call.Common().StaticCallee()
+		if depth > 0 && callee != nil && callee.Blocks != nil && w.inModule(callee) && callee.Signature.Results().Len() == 1 {
+			var f *types.Var
+			n := 0
+			allInstrs(callee, func(in ssa.Instruction) {
+				if r, isRet := in.(*ssa.Return); isRet && in.Parent() == callee && len(r.Results) == 1 {
+					n++
+					f = counterRead(w, r.Results[0], depth-1)
+				}
+			})
+			if n == 1 {
+				return f
+			}
+		}
+		return nil
+	}
+	if f := loadedField(v); f != nil {
+		if bt, isBasic := f.Type().Underlying().(*types.Basic); isBasic && bt.Info()&types.IsInteger != 0 {
+			return f
 		}
 	}
 	return nil
@@ -971,11 +1000,10 @@ func sessionAdvancedFirst(c *Ctx, id string) {
 		if rt := fn.Signature.Recv(); rt != nil {
 			if pt, ok := rt.Type().(*types.Pointer); ok {
 				if st, ok := pt.Elem().Underlying().(*types.Struct); ok {
-					for i := 0; i < st.NumFields(); i++ {
-						if ts := st.Field(i).Type().String(); strings.Contains(ts, "ConcurrentSwissMap[uint16,") && strings.HasSuffix(ts, "models.Offset]") {
-							posMap = st.Field(i)
-						}
-					}
+					posMap = fieldDeep(st, func(f *types.Var) bool {
+						ts := f.Type().String()
+						return strings.Contains(ts, "ConcurrentSwissMap[uint16,") && strings.HasSuffix(ts, "models.Offset]")
+					})
 				}
 			}
 		}
@@ -1018,4 +1046,23 @@ func sessionAdvancedFirst(c *Ctx, id string) {
 			c.Fail(id, construct, adv[0].Pos(), "the session counter is not advanced before the closing step(s) at %s: a re-open attempt admitted in between opens a stream behind the close or fails on the emptied position map", strings.Join(late, ", "))
 		}
 	}
+}
+
+// fieldDeep: the (last) field of st, or of a struct embedded in it by value, that satisfies p.
+func fieldDeep(st *types.Struct, p func(*types.Var) bool) *types.Var {
+	var out *types.Var
+	for i := 0; i < st.NumFields(); i++ {
+		f := st.Field(i)
+		if p(f) {
+			out = f
+		}
+		if embeddedPart(f) {
+			if inner, ok := f.Type().Underlying().(*types.Struct); ok {
+				if g := fieldDeep(inner, p); g != nil {
+					out = g
+				}
+			}
+		}
+	}
+	return out
 }
